@@ -35,9 +35,11 @@ def cycle_cases(max_len):
                 for through in ("direct", "field"):
                     if through == "field" and via_field is None:
                         continue
-                    for used in (True, False):
+                    for used in (True, False, "entry_direct", "entry_field"):
                         for mixed in (False, True):
                             if mixed and (n < 2 or tname == "U"):
+                                continue
+                            if used == "entry_field" and via_field is None:
                                 continue
                             frs = []
                             for i in range(n):
@@ -57,7 +59,14 @@ def cycle_cases(max_len):
                                     on = {"O": "I", "I": "O"}[tname]
                                     body = [b for b in body if not (isinstance(b, Field) and b.name == "self")]
                                 frs.append(FragDef("F%d" % i, on, body))
-                            sel = [Field(root_field, ([TN()] if tname != "O" else []) + ([Spread("F0")] if used else [Field("id")] if plain else []))]
+                            if used == "entry_direct":
+                                # a fragment that is not on the cycle itself but leads into it
+                                frs.append(FragDef("Entry", tname, ([TN()] if tname != "O" else []) + [Spread("F0")]))
+                            elif used == "entry_field":
+                                inner = [Spread("F0")] if tname == "O" else [TN(), Spread("F0")]
+                                frs.append(FragDef("Entry", tname, ([TN()] if tname != "O" else []) + [Field(p) for p in plain] + [Field(via_field, inner)]))
+                            spread = [Spread("Entry")] if used in ("entry_direct", "entry_field") else ([Spread("F0")] if used else [Field("id")] if plain else [])
+                            sel = [Field(root_field, ([TN()] if tname != "O" else []) + spread)]
                             if not sel[0].sel:
                                 sel = [Field(root_field, [TN()])]
                             doc = Doc(frs + [Op("query", "Op", sel)])
@@ -267,8 +276,8 @@ def run(tier):
     cov = {
         "evaluations": len(cases), "distinct_nontrivial": len(distinct),
         "rule": "adversarial grammar enumerated completely within its bounds: spread cycles of length 1-6 on object / "
-                "interface / union types x __typename {none, first, last} x {direct, through a field} x {used, unused} x "
-                "{same type, alternating types}; input-type cycles of length 1-4 x 4 edge kinds x @oneOf; selection / inline "
+                "interface / union types x __typename {none, first, last} x {direct, through a field} x {used, unused, entered through a "
+                "fragment outside the cycle (directly / through a field)} x {same type, alternating types}; input-type cycles of length 1-4 x 4 edge kinds x @oneOf; selection / inline "
                 "/ list nesting up to 64 (thorough: every depth, plus 96 and 128); degenerate schemas (SDL and JSON); every "
                 "byte-prefix and every single-token deletion of seed queries and of the CORE schema (SDL) and of a JSON "
                 "schema. distinct = distinct (schema file, query text) pairs",
